@@ -341,4 +341,372 @@ theorem hasNext_cur {l r : Itr} {ls rs : Nat} {vl vr : List Val} (hl : Cur l ls 
           obtain ⟨num', hd'⟩ := nh'
           have := hnum num hd h1
           simp [pure, Except.pure, this]
+/-! ### cmp and eq on flat layouts compute the specification -/
+
+theorem cmpScalar_arr_right (c : Cell) (hc : c.isScalar = true) (ety : UInt8) (len len' : Int) :
+    cmpScalar c (.arr ety len) = cmpScalar c (.arr ety len') := by
+  have := scalar_type_ne_a c hc
+  simp [cmpScalar, Cell.type]
+
+theorem cmpScalar_arr_left (c : Cell) (hc : c.isScalar = true) (ety : UInt8) (len len' : Int) :
+    cmpScalar (.arr ety len) c = cmpScalar (.arr ety len') c := by
+  have := scalar_type_ne_a c hc
+  have h' : ¬ tyA = c.type := fun e => this e.symm
+  simp [cmpScalar, Cell.type]
+
+theorem asArr_arr (e : UInt8) (l : Int) : (Cell.arr e l).asArr = some (e, l) := rfl
+
+theorem Val.size_pos (v : Val) : 1 ≤ v.size := by
+  cases v <;> simp [Val.size] <;> omega
+
+theorem cmpLoop_nonzero {f : Nat} {l r : Itr} {ls rs : Nat} {vl vr : List Val} (hl : Cur l ls vl)
+    (hr : Cur r rs vr) (rv : Int) (hrv : rv ≠ 0) : cmpLoop (f + 1) l r ls rs rv = .ok rv := by
+  simp only [cmpLoop, hasNext_cur hl hr, bind, Except.bind]
+  have : (rv == 0) = false := by simpa using hrv
+  simp [this, hrv, pure, Except.pure]
+
+theorem cmp_bridge : ∀ f : Nat,
+    (∀ xs ys tx ty vx vy, expandList xs = some vx → expandList ys = some vy →
+      Val.sizeList vx + Val.sizeList vy + 2 ≤ f →
+      cmp f (flatList xs ++ tx) (flatList ys ++ ty) (flatList xs).length (flatList ys).length
+        = .ok (Val.cmpList vx vy)) ∧
+    (∀ l r ls rs vl vr, Cur l ls vl → Cur r rs vr → Val.sizeList vl + Val.sizeList vr + 1 ≤ f →
+      cmpLoop f l r ls rs 0 = .ok (Val.cmpList vl vr)) ∧
+    (∀ p q v w, Denotes p v → Denotes q w → v.size + w.size ≤ f →
+      cmpSingle f p q = .ok (Val.cmp v w)) := by
+  intro f
+  induction f with
+  | zero =>
+    refine ⟨fun _ _ _ _ _ _ _ _ h => by omega, fun _ _ _ _ _ _ _ _ h => by omega, fun _ _ v w _ _ h => ?_⟩
+    have := v.size_pos; have := w.size_pos; omega
+  | succ f ih =>
+    obtain ⟨ihA, ihB, ihC⟩ := ih
+    refine ⟨?_, ?_, ?_⟩
+    · intro xs ys tx ty vx vy hx hy hb
+      simp only [cmp]
+      exact ihB _ _ _ _ vx vy (cur_init xs tx vx hx) (cur_init ys ty vy hy) (by omega)
+    · intro l r ls rs vl vr hl hr hb
+      simp only [cmpLoop, hasNext_cur hl hr, bind, Except.bind]
+      cases vl with
+      | nil =>
+        simp only [List.isEmpty_nil, Bool.not_true, Bool.false_and, Bool.false_eq_true, ↓reduceIte,
+          ne_eq, not_true_eq_false, eqAfterAbort_cur hl hr, Bool.true_and]
+        cases vr with
+        | nil => simp [Val.cmpList, pure, Except.pure]
+        | cons w ws =>
+          have h1 := hl.nil_i
+          have h2 := (cur_step hr).1
+          have h3 : ¬ rs - r.i < ls - l.i := by omega
+          simp [Val.cmpList, pure, Except.pure, h1, Nat.le_of_lt h2]
+      | cons v vs =>
+        cases vr with
+        | nil =>
+          have h1 := hr.nil_i
+          have h2 := (cur_step hl).1
+          have h3 : rs - r.i < ls - l.i := by omega
+          simp [eqAfterAbort_cur hl hr, Val.cmpList, pure, Except.pure, h1, Nat.le_of_lt h2]
+          omega
+        | cons w ws =>
+          obtain ⟨_, _, ⟨p, hp, hpd⟩, ⟨l', hl', hcl⟩⟩ := cur_step hl
+          obtain ⟨_, _, ⟨q, hq, hqd⟩, ⟨r', hr', hcr⟩⟩ := cur_step hr
+          simp only [Val.sizeList] at hb
+          have hC := ihC p q v w hpd hqd (by omega)
+          simp only [List.isEmpty_cons, Bool.not_false, Bool.and_self, beq_self_eq_true, ↓reduceIte,
+            hp, hq, hC, hl', hr', Val.cmpList]
+          by_cases h0 : Val.cmp v w = 0
+          · rw [h0]; simp only [↓reduceIte]
+            exact ihB _ _ _ _ vs ws hcl hcr (by have := v.size_pos; omega)
+          · simp only [h0, ↓reduceIte]
+            cases f with
+            | zero => have := v.size_pos; have := w.size_pos; omega
+            | succ f => exact cmpLoop_nonzero hcl hcr _ h0
+    · intro p q v w hp hq hb
+      cases hp with
+      | sc c rest hc =>
+        cases hq with
+        | sc c' rest' hc' =>
+          simp [cmpSingle, deref, asArr_scalar hc, Val.cmp, Val.head, bind, Except.bind, pure, Except.pure]
+        | arr ety es ves rest' hes =>
+          simp [cmpSingle, deref, asArr_scalar hc, Val.cmp, Val.head, bind, Except.bind, pure, Except.pure]
+          exact cmpScalar_arr_right c hc ety _ _
+      | arr ety es ves rest hes =>
+        cases hq with
+        | sc c' rest' hc' =>
+          simp [cmpSingle, deref, asArr_scalar hc', Val.cmp, asArr_arr, bind, Except.bind, pure, Except.pure]
+          exact cmpScalar_arr_left c' hc' ety _ _
+        | arr ety' es' ves' rest' hes' =>
+          simp only [Val.size] at hb
+          have hA := ihA es es' rest rest' ves ves' hes hes' (by omega)
+          simp only [cmpSingle, deref, asArr_arr, bind, Except.bind, Val.cmp]
+          by_cases hn : normTy ety = normTy ety'
+          · simp [hn, hA]
+          · simp [hn, pure, Except.pure]
+
+theorem eq_arr_test (lt rt : UInt8) :
+    (lt ≠ rt ∧ ¬ (lt = tyT ∧ rt = tyF) ∧ ¬ (lt = tyF ∧ rt = tyT)) ↔ normTy lt ≠ normTy rt := by
+  simp only [normTy, tyT, tyF]
+  by_cases h1 : lt = 84
+  · subst h1
+    by_cases h2 : rt = 84
+    · subst h2; simp
+    · have h2' : ¬ (84 : UInt8) = rt := fun e => h2 e.symm
+      simp only [ne_eq, h2', not_false_eq_true, true_and, h2, and_false, ↓reduceIte]
+      constructor
+      · intro h e; exact h.1 e.symm
+      · intro h; exact ⟨fun e => h e.symm, by decide⟩
+  · by_cases h2 : rt = 84
+    · subst h2
+      simp only [ne_eq, h1, not_false_eq_true, false_and, and_true, true_and, ↓reduceIte]
+    · simp only [ne_eq, h1, false_and, not_false_eq_true, h2, and_false, and_self, and_true, ↓reduceIte]
+
+theorem eqLoop_false {f : Nat} {l r : Itr} {ls rs : Nat} {vl vr : List Val} (hl : Cur l ls vl)
+    (hr : Cur r rs vr) : eqLoop (f + 1) l r ls rs false = .ok false := by
+  simp [eqLoop, hasNext_cur hl hr, bind, Except.bind, pure, Except.pure]
+
+theorem eq_bridge : ∀ f : Nat,
+    (∀ xs ys tx ty vx vy, expandList xs = some vx → expandList ys = some vy →
+      Val.sizeList vx + Val.sizeList vy + 2 ≤ f →
+      eq f (flatList xs ++ tx) (flatList ys ++ ty) (flatList xs).length (flatList ys).length
+        = .ok (decide (Val.cmpList vx vy = 0))) ∧
+    (∀ l r ls rs vl vr, Cur l ls vl → Cur r rs vr → Val.sizeList vl + Val.sizeList vr + 1 ≤ f →
+      eqLoop f l r ls rs true = .ok (decide (Val.cmpList vl vr = 0))) ∧
+    (∀ p q v w, Denotes p v → Denotes q w → v.size + w.size ≤ f →
+      eqSingle f p q = .ok (decide (Val.cmp v w = 0))) := by
+  intro f
+  induction f with
+  | zero =>
+    refine ⟨fun _ _ _ _ _ _ _ _ h => by omega, fun _ _ _ _ _ _ _ _ h => by omega, fun _ _ v w _ _ h => ?_⟩
+    have := v.size_pos; have := w.size_pos; omega
+  | succ f ih =>
+    obtain ⟨ihA, ihB, ihC⟩ := ih
+    refine ⟨?_, ?_, ?_⟩
+    · intro xs ys tx ty vx vy hx hy hb
+      simp only [eq]
+      exact ihB _ _ _ _ vx vy (cur_init xs tx vx hx) (cur_init ys ty vy hy) (by omega)
+    · intro l r ls rs vl vr hl hr hb
+      simp only [eqLoop, hasNext_cur hl hr, bind, Except.bind]
+      cases vl with
+      | nil =>
+        cases vr with
+        | nil => simp [eqAfterAbort_cur hl hr, Val.cmpList]
+        | cons w ws => simp [eqAfterAbort_cur hl hr, Val.cmpList]
+      | cons v vs =>
+        cases vr with
+        | nil => simp [eqAfterAbort_cur hl hr, Val.cmpList]
+        | cons w ws =>
+          obtain ⟨_, _, ⟨p, hp, hpd⟩, ⟨l', hl', hcl⟩⟩ := cur_step hl
+          obtain ⟨_, _, ⟨q, hq, hqd⟩, ⟨r', hr', hcr⟩⟩ := cur_step hr
+          simp only [Val.sizeList] at hb
+          have hC := ihC p q v w hpd hqd (by omega)
+          simp only [List.isEmpty_cons, Bool.not_false, Bool.and_self, ↓reduceIte,
+            hp, hq, hC, hl', hr', Val.cmpList]
+          by_cases h0 : Val.cmp v w = 0
+          · simp only [h0, ↓reduceIte, decide_true]
+            exact ihB _ _ _ _ vs ws hcl hcr (by have := v.size_pos; omega)
+          · simp only [h0, ↓reduceIte, decide_false]
+            cases f with
+            | zero => have := v.size_pos; have := w.size_pos; omega
+            | succ f => exact eqLoop_false hcl hcr
+    · intro p q v w hp hq hb
+      cases hp with
+      | sc c rest hc =>
+        cases hq with
+        | sc c' rest' hc' =>
+          simp [eqSingle, deref, asArr_scalar hc, Val.cmp, Val.head, bind, Except.bind,
+            eqScalar_cmpScalar c c' (Or.inl hc)]
+          congr
+        | arr ety es ves rest' hes =>
+          simp [eqSingle, deref, asArr_scalar hc, Val.cmp, Val.head, bind, Except.bind,
+            eqScalar_cmpScalar c _ (Or.inl hc), cmpScalar_arr_right c hc ety _ 0]
+          congr
+      | arr ety es ves rest hes =>
+        cases hq with
+        | sc c' rest' hc' =>
+          simp [eqSingle, deref, asArr_scalar hc', Val.cmp, asArr_arr, bind, Except.bind,
+            eqScalar_cmpScalar _ c' (Or.inr hc'), cmpScalar_arr_left c' hc' ety _ 0]
+          congr
+        | arr ety' es' ves' rest' hes' =>
+          simp only [Val.size] at hb
+          have hA := ihA es es' rest rest' ves ves' hes hes' (by omega)
+          simp only [eqSingle, deref, asArr_arr, bind, Except.bind, Val.cmp, eq_arr_test]
+          by_cases hn : normTy ety = normTy ety'
+          · simp [hn, hA]
+          · simp only [ne_eq, hn, not_false_eq_true, ↓reduceIte, pure, Except.pure]
+            congr 1
+            split <;> simp
+/-! ### iteration and rtosc_avmessage -/
+
+/-- the yielded pointers denote the values, one by one -/
+inductive AllDenote : List (List Cell) → List Val → Prop
+  | nil : AllDenote [] []
+  | cons {p : List Cell} {v : Val} {ps : List (List Cell)} {vs : List Val} :
+      Denotes p v → AllDenote ps vs → AllDenote (p :: ps) (v :: vs)
+
+theorem iterate_cur : ∀ (vs : List Val) (f : Nat) (it : Itr) (size : Nat), Cur it size vs →
+    vs.length + 1 ≤ f → ∃ ps, iterate f it size = .ok ps ∧ AllDenote ps vs
+  | [], f, it, size, h, hf => by
+    cases f with
+    | zero => omega
+    | succ f =>
+      refine ⟨[], ?_, .nil⟩
+      simp [iterate, h.nil_i, pure, Except.pure]
+  | v :: vs, f, it, size, h, hf => by
+    cases f with
+    | zero => omega
+    | succ f =>
+      obtain ⟨hi, _, ⟨p, hp, hpd⟩, ⟨it', hn, hc⟩⟩ := cur_step h
+      obtain ⟨ps, hps, hfa⟩ := iterate_cur vs f it' size hc (by simpa using hf)
+      refine ⟨p :: ps, ?_, .cons hpd hfa⟩
+      simp [iterate, hi, hp, hn, hps, bind, Except.bind, pure, Except.pure]
+
+theorem countLoop_cur : ∀ (vs : List Val) (f : Nat) (it : Itr) (size : Nat), Cur it size vs →
+    vs.length + 1 ≤ f → countLoop f it size = .ok vs.length
+  | [], f, it, size, h, hf => by
+    cases f with
+    | zero => omega
+    | succ f => simp [countLoop, h.nil_i, pure, Except.pure]
+  | v :: vs, f, it, size, h, hf => by
+    cases f with
+    | zero => omega
+    | succ f =>
+      obtain ⟨hi, _, _, ⟨it', hn, hc⟩⟩ := cur_step h
+      have := countLoop_cur vs f it' size hc (by simpa using hf)
+      simp [countLoop, hi, hn, this, bind, Except.bind, pure, Except.pure]
+
+theorem collect_cur : ∀ (vs : List Val) (it : Itr) (size : Nat), Cur it size vs →
+    collect vs.length it = msgArgs vs
+  | [], it, size, h => by simp [collect, msgArgs]
+  | v :: vs, it, size, h => by
+    obtain ⟨hi, _, ⟨p, hp, hpd⟩, ⟨it', hn, hc⟩⟩ := cur_step h
+    have ih := collect_cur vs it' size hc
+    simp only [List.length_cons, collect, msgArgs, hp, hn, ih, bind, Except.bind]
+    cases hpd with
+    | sc c rest hc' => simp [deref, Val.head]; rfl
+    | arr ety es ves rest hes =>
+      have : Osc.hasReserved tyA = false := by decide
+      simp [deref, Val.head, Cell.type, this]
+
+/-- what `rtosc_avmessage` returns for a list denoting `vs` -/
+def msgOf (buffer : Option Bytes) (addr : Bytes) (vs : List Val) : Res (Option Osc.AResult) := do
+  let (tags, vals) ← msgArgs vs
+  pure (Osc.amessage buffer addr tags vals)
+
+theorem avmessage_bridge (xs : List Item) (vs : List Val) (h : expandList xs = some vs)
+    (f : Nat) (hf : vs.length + 1 ≤ f) (buffer : Option Bytes) (addr : Bytes) :
+    avmessage f buffer addr (flatList xs).length (flatList xs) = msgOf buffer addr vs := by
+  have hc := cur_init xs [] vs h
+  simp only [List.append_nil] at hc
+  simp only [avmessage, countLoop_cur vs f _ _ hc hf, bind, Except.bind, msgOf]
+  cases vs with
+  | nil => simp [msgArgs, pure, Except.pure]
+  | cons v vs' =>
+    have := collect_cur (v :: vs') _ _ hc
+    simp only [List.length_cons] at this
+    simp [this]
+/-! ### expansion: append, leaves are scalars -/
+
+theorem expandList_append (a b : List Item) :
+    expandList (a ++ b) = (match expandList a, expandList b with
+                           | some va, some vb => some (va ++ vb)
+                           | _, _ => none) := by
+  induction a with
+  | nil => cases h : expandList b <;> simp [expandList, h]
+  | cons x xs ih =>
+    simp only [List.cons_append, expandList, ih]
+    cases x.expand <;> cases expandList xs <;> cases expandList b <;> simp
+
+mutual
+/-- every scalar leaf holds a scalar cell (no array / range header used as a value) -/
+def Val.leaves : Val → Bool
+  | .sc c => c.isScalar
+  | .arr _ es => Val.leavesList es
+def Val.leavesList : List Val → Bool
+  | [] => true
+  | v :: vs => v.leaves && Val.leavesList vs
+end
+
+theorem leavesList_append (a b : List Val) :
+    Val.leavesList (a ++ b) = (Val.leavesList a && Val.leavesList b) := by
+  induction a with
+  | nil => simp [Val.leavesList]
+  | cons x xs ih => simp [Val.leavesList, ih, Bool.and_assoc]
+
+theorem leavesList_replicate (n : Nat) (v : Val) (h : v.leaves = true) :
+    Val.leavesList (List.replicate n v) = true := by
+  induction n with
+  | zero => simp [Val.leavesList]
+  | succ n ih => simp [List.replicate_succ, Val.leavesList, h, ih]
+
+theorem rangeVals_leaves (d s : Cell) : ∀ (m i : Nat) (r : List Val), rangeVals d s i m = some r →
+    Val.leavesList r = true
+  | 0, i, r, h => by simp only [rangeVals, Option.some.injEq] at h; subst h; rfl
+  | m + 1, i, r, h => by
+    simp only [rangeVals] at h
+    split at h
+    · rename_i v r' hv hr
+      simp only [Option.some.injEq] at h; subst h
+      simp [Val.leavesList, Val.leaves, rangeVal_scalar hv, rangeVals_leaves d s m (i + 1) r' hr]
+    · cases h
+
+mutual
+theorem expand_leaves : ∀ (x : Item) (vx : List Val), x.expand = some vx → Val.leavesList vx = true
+  | .val c, vx, h => by
+    simp only [Item.expand] at h
+    split at h
+    · simp only [Option.some.injEq] at h; subst h; simp [Val.leavesList, Val.leaves, *]
+    · cases h
+  | .arr ety es, vx, h => by
+    simp only [Item.expand, Option.map_eq_some_iff] at h
+    obtain ⟨vs, h1, h2⟩ := h
+    subst h2
+    simp [Val.leavesList, Val.leaves, expandList_leaves es vs h1]
+  | .rep n (.val c), vx, h => by
+    simp only [Item.expand] at h
+    split at h
+    · rename_i hc
+      simp only [Option.some.injEq] at h; subst h
+      exact leavesList_replicate n _ (by simp [Val.leaves, hc.2])
+    · cases h
+  | .rep n (.arr ety es), vx, h => by
+    simp only [Item.expand] at h
+    split at h
+    · simp only [Option.map_eq_some_iff] at h
+      obtain ⟨vs, h1, h2⟩ := h
+      subst h2
+      exact leavesList_replicate n _ (by simp [Val.leaves, expandList_leaves es vs h1])
+    · cases h
+  | .rep _ (.rep _ _), vx, h => by simp [Item.expand] at h
+  | .rep _ (.range _ _ _), vx, h => by simp [Item.expand] at h
+  | .range n d s, vx, h => by
+    simp only [Item.expand] at h
+    split at h
+    · exact rangeVals_leaves d s n 0 vx h
+    · cases h
+theorem expandList_leaves : ∀ (xs : List Item) (vs : List Val), expandList xs = some vs →
+    Val.leavesList vs = true
+  | [], vs, h => by simp only [expandList, Option.some.injEq] at h; subst h; rfl
+  | x :: xs, vs, h => by
+    obtain ⟨vx, vr, hx, hxs, hv⟩ := expandList_cons h
+    subst hv
+    rw [leavesList_append, expand_leaves x vx hx, expandList_leaves xs vr hxs]; rfl
+end
+
+mutual
+theorem ok_of_leaves_noNaN : ∀ (v : Val), v.leaves = true → v.noNaN = true → v.ok = true
+  | .sc c, h1, h2 => by simp_all [Val.leaves, Val.noNaN, Val.ok]
+  | .arr _ es, h1, h2 => by
+    simp only [Val.leaves, Val.noNaN, Val.ok] at *
+    exact okList_of_leaves_noNaN es h1 h2
+theorem okList_of_leaves_noNaN : ∀ (vs : List Val), Val.leavesList vs = true →
+    Val.noNaNList vs = true → Val.okList vs = true
+  | [], _, _ => rfl
+  | v :: vs, h1, h2 => by
+    simp only [Val.leavesList, Val.noNaNList, Val.okList, Bool.and_eq_true] at *
+    exact ⟨ok_of_leaves_noNaN v h1.1 h2.1, okList_of_leaves_noNaN vs h1.2 h2.2⟩
+end
+
+theorem length_le_sizeList (vs : List Val) : vs.length ≤ Val.sizeList vs := by
+  induction vs with
+  | nil => simp [Val.sizeList]
+  | cons v vs ih => have := v.size_pos; simp [Val.sizeList]; omega
 end Rtosc.ArgVal
